@@ -67,6 +67,12 @@ def zipBack (pool : List Obj) (bs : List Backend) : List Obj :=
 
 def Sys.strat (y : Sys) : Strat := { kind := y.kind, pool := y.backends, cur := y.cur }
 
+/-- `time.Now().After(UnhealthyUntil)` (the zero time is always in the past) -/
+def expired (b : Backend) (now : Nat) : Bool :=
+  match b.until_ with
+  | some u => decide (u < now)
+  | none => true
+
 /-- `IsBackendHealthy` on pool index `i`: lazy expiry flips the flag and the metrics mirror -/
 def isHealthyAt (y : Sys) (i : Nat) (now : Nat) : Sys × Bool :=
   match y.pool[i]? with
@@ -74,8 +80,7 @@ def isHealthyAt (y : Sys) (i : Nat) (now : Nat) : Sys × Bool :=
   | some o =>
     if o.b.healthy then (y, true)
     else
-      let expired := match o.b.until_ with | some u => decide (u < now) | none => true
-      if expired then
+      if expired o.b now then
         ({ y with pool := y.pool.set i { o with b := { o.b with healthy := true } },
                   bm := bmUpd y.bm o.b.name (fun m => { m with healthy := true }) }, true)
       else (y, false)
@@ -111,50 +116,54 @@ def updObj (l : List Obj) (id : Nat) (f : Obj → Obj) : List Obj :=
 
 def findObj (l : List Obj) (id : Nat) : Option Obj := l.find? (·.id = id)
 
+/-- `handleRequest` up to the backend call: find a backend, occupy it -/
+def dispatch (y : Sys) (gen : Option Nat) (tid now : Nat) (r : Addr.Req) : Sys × Begun :=
+  let f := findBackend y now (Addr.strategyKey r) retryBudget
+  match f.2 with
+  | none =>
+    -- 503, counted as failed; the breaker sees a nil error (success)
+    let y := { f.1 with failed := f.1.failed + 1 }
+    let y := match y.cb, gen with
+      | some (c, s), some g => { y with cb := some (c, CB.end_ c s g true now) }
+      | _, _ => y
+    (y, .noBackend)
+  | some i =>
+    match f.1.pool[i]? with
+    | none => (f.1, .noBackend)
+    | some o =>
+      let o' := { o with b := { o.b with conns := o.b.conns + 1 } }
+      ({ f.1 with pool := f.1.pool.set i o',
+                  bm := bmUpd f.1.bm o.b.name (fun m => { m with conns := o'.b.conns }),
+                  flights := { tid := tid, bid := o.id, gen := gen } :: f.1.flights }, .fwd o.b.name)
+
+/-- the rate-limiter gate of `ServeHTTP` (after `RecordRequest`) -/
+def rlGate (y : Sys) (now : Nat) (r : Addr.Req) : Sys × Bool :=
+  match y.rl with
+  | none => (y, true)
+  | some (c, m) =>
+    let a := RL.step c m (.allow (Bytes.hex (Addr.clientIP r)) now)
+    ({ y with rl := some (c, a.1) }, a.2 == some true)
+
+/-- the circuit-breaker admission: `inl` = rejected with that answer, `inr gen` = admitted -/
+def cbGate (y : Sys) (now : Nat) : Sys × (Begun ⊕ Option Nat) :=
+  match y.cb with
+  | none => (y, .inr none)
+  | some (c, s) =>
+    let a := CB.begin c s now
+    let y' := { y with cb := some (c, a.1) }
+    match a.2 with
+    | .admitted g => (y', .inr (some g))
+    | .rejectedOpen => ({ y' with failed := y'.failed + 1 }, .inl .cbOpen)
+    | .tooMany => ({ y' with failed := y'.failed + 1 }, .inl .cbTooMany)
+
 /-- ServeHTTP up to the backend call -/
 def begin (y : Sys) (tid now : Nat) (r : Addr.Req) : Sys × Begun :=
-  let y := { y with total := y.total + 1 }
-  -- rate limiter gate
-  let gate : Sys × Bool :=
-    match y.rl with
-    | none => (y, true)
-    | some (c, m) =>
-      let a := RL.step c m (.allow (Bytes.hex (Addr.clientIP r)) now)
-      ({ y with rl := some (c, a.1) }, a.2 == some true)
-  if !gate.2 then ({ gate.1 with limited := gate.1.limited + 1 }, .limited) else
-  let y := gate.1
-  -- circuit breaker admission
-  let adm : Sys × Option (Option Nat) × Option Begun :=
-    match y.cb with
-    | none => (y, some none, none)
-    | some (c, s) =>
-      let a := CB.begin c s now
-      let y' := { y with cb := some (c, a.1) }
-      match a.2 with
-      | .admitted g => (y', some (some g), none)
-      | .rejectedOpen => ({ y' with failed := y'.failed + 1 }, none, some .cbOpen)
-      | .tooMany => ({ y' with failed := y'.failed + 1 }, none, some .cbTooMany)
-  match adm.2.1 with
-  | none => (adm.1, adm.2.2.getD .cbOpen)
-  | some gen =>
-    let y := adm.1
-    let f := findBackend y now (Addr.strategyKey r) retryBudget
-    match f.2 with
-    | none =>
-      -- 503, counted as failed; the breaker sees a nil error (success)
-      let y := { f.1 with failed := f.1.failed + 1 }
-      let y := match y.cb, gen with
-        | some (c, s), some g => { y with cb := some (c, CB.end_ c s g true now) }
-        | _, _ => y
-      (y, .noBackend)
-    | some i =>
-      match f.1.pool[i]? with
-      | none => (f.1, .noBackend)
-      | some o =>
-        let o' := { o with b := { o.b with conns := o.b.conns + 1 } }
-        ({ f.1 with pool := f.1.pool.set i o',
-                    bm := bmUpd f.1.bm o.b.name (fun m => { m with conns := o'.b.conns }),
-                    flights := { tid := tid, bid := o.id, gen := gen } :: f.1.flights }, .fwd o.b.name)
+  let g := rlGate { y with total := y.total + 1 } now r
+  if !g.2 then ({ g.1 with limited := g.1.limited + 1 }, .limited) else
+  let a := cbGate g.1 now
+  match a.2 with
+  | .inl resp => (a.1, resp)
+  | .inr gen => dispatch a.1 gen tid now r
 
 inductive Outcome where
   | status (code : Nat)     -- the status the proxied exchange ended with (502 = unreachable)
